@@ -87,7 +87,9 @@ ASSUMPTIONS = [
 ]
 RULE = ("(call site, identifier choice, value assignment): every backend call x identifiers from the generated vocabularies (all single-slot "
         "choices; multi-slot sampled in quick, exhaustive in thorough) x adversarial values (quotes, backslashes, braces, $, newlines, "
-        "Cypher keywords, non-ASCII); non-trivial = some value contains a metacharacter; distinct by canonical case")
+        "Cypher keywords, non-ASCII); non-trivial = some value contains a metacharacter; distinct by canonical case; every call additionally "
+        "against empty / benign / payload-carrying RESULT sets of the stand-in driver, merge_adm and unmerge_adm under 10 result scenarios; every "
+        "run() call site of the five modules (harness's own ast scan) must be in the generated table and reached")
 
 # ------------------------------------------------------------------------------------------------------------
 # the property's lint, written independently of Model/Cypher.lean from the same specification
